@@ -150,6 +150,18 @@ type c06 struct {
 	pos    map[*Node]string
 	seq    int
 	faulty bool
+	// pin: revision-date written in the import statement of file -> imported module (revision
+	// families, c06rev.go; nil otherwise: imports carry no revision-date)
+	pin map[*Module]map[*Module]string
+}
+
+// c06TreeKey is the key of Modules.Modules under which the tree of m is found: the bare name,
+// for a member of a revision family (several loaded revisions of one name) name@revision.
+func c06TreeKey(m *Module) string {
+	if m.File != "" && len(m.Revisions) > 0 {
+		return m.Name + "@" + m.Revisions[0]
+	}
+	return m.Name
 }
 
 func (g *c06) pick(ss []string) string { return ss[g.r.Intn(len(ss))] }
@@ -1474,7 +1486,7 @@ func (g *c06) collect(c *C06Case) {
 			}
 		},
 		site: func(mod *Module, steps []c06Step, u, gr *Node, nested bool) {
-			c.Sites = append(c.Sites, C06Site{Module: mod.Name, Path: stepsPath(steps, true), GLoc: g.pos[gr], GName: gr.Arg,
+			c.Sites = append(c.Sites, C06Site{Module: c06TreeKey(mod), Path: stepsPath(steps, true), GLoc: g.pos[gr], GName: gr.Arg,
 				Names: contributed(gr, 0), Nested: nested})
 		},
 	}
@@ -1547,6 +1559,10 @@ func (g *c06) renderModule(m *Module, file string, revisions []string, kids, ext
 		w.ln(fmt.Sprintf("  prefix %s;", m.Prefix))
 	}
 	for _, o := range m.Imports {
+		if rd := g.pin[m][o]; rd != "" {
+			w.ln(fmt.Sprintf("  import %s { prefix %s; revision-date %s; }", o.Name, m.ImportPrefix[o], rd))
+			continue
+		}
 		w.ln(fmt.Sprintf("  import %s { prefix %s; }", o.Name, m.ImportPrefix[o]))
 	}
 	for _, s := range m.Includes {
